@@ -20,12 +20,10 @@ func (i JsUnixTime) MarshalJSON() ([]byte, error) {
 
 // UnmarshalJSON unmarshal json
 func (i *JsUnixTime) UnmarshalJSON(b []byte) error {
-	lb := len(b)
-	if lb <= 2 {
+	strBuf, ok := jsText(b)
+	if !ok {
 		return ErrInvalidInt64Js
 	}
-
-	strBuf := string(b[1 : lb-1])
 	t, err := strconv.Atoi(strBuf)
 	if err != nil {
 		return err
@@ -49,12 +47,10 @@ func (i JsNanoTime) MarshalJSON() ([]byte, error) {
 
 // UnmarshalJSON unmarshal json
 func (i *JsNanoTime) UnmarshalJSON(b []byte) error {
-	lb := len(b)
-	if lb <= 2 {
+	strBuf, ok := jsText(b)
+	if !ok {
 		return ErrInvalidInt64Js
 	}
-
-	strBuf := string(b[1 : lb-1])
 	t, err := strconv.Atoi(strBuf)
 	if err != nil {
 		return err
